@@ -95,6 +95,42 @@ def main(tier):
         else:
             ck.report('ending=%s@-Q%d' % (name, q), 'ending %s at -Q%d: interp rc=%s lines=%s | c rc=%s lines=%s (expected exit class %s)' % (name, q, res['interp'].rc, li, res['c'].rc, lc, cls),
                       {'e.as': END_HEAD + body + '\n', 'interp.txt': res['interp'].text()[-1500:], 'c.txt': res['c'].text()[-1500:]})
+    # ---- pinned corpus (thorough): every program of lib/axllib/test that builds on both routes and runs reproducibly
+    ncorp = ncorp_nov = 0
+    if tier == 'thorough' and not ck.expired():
+        from vlib import corpus
+        b2 = ck.build('aldor', 'foam', 'foamlib', 'axllib')
+        tca = TC(b2, 'axllib')
+        clevels = ['-Q0', '-Q1', '-Q2', '-Q3', '-Q5', '-Q9']
+        cnames, got = corpus.matrix(ck, tca, ('c', 'interp'), clevels, ck.work)
+        for n in cnames:
+            if corpus.uses_foreign(n):
+                continue            # the interpreter cannot call foreign functions: the routes are not comparable
+            stable = True
+            for route in ('c', 'interp'):
+                b0 = got.get((n, route, '-Q0'), [])
+                if len(b0) < 2 or b0[0].key() != b0[1].key() or b0[0].timeout or b0[0].stage != 'run':
+                    stable = False
+            if not stable:
+                continue
+            for q in clevels:
+                c, i = got.get((n, 'c', q)), got.get((n, 'interp', q))
+                if not c or not i:
+                    continue
+                c, i = c[0], i[0]
+                ck.count()
+                ncorp += 1
+                if c.stage != 'run' or i.stage != 'run' or c.timeout or i.timeout:
+                    ncorp_nov += 1
+                    continue
+                if (c.faulted() and i.faulted()) or ((c.rc == 0) == (i.rc == 0) and c.norm() == i.norm()):
+                    ck.nontrivial(('corpus', n, q))
+                else:
+                    ck.report('corpus=%s@%s' % (n, q), 'corpus program %s at %s: C executable rc %s (%d bytes) vs interpreter rc %s (%d bytes)' % (n, q, c.rc, len(c.out), i.rc, len(i.out)),
+                              files={'c.txt': c.out, 'interp.txt': i.out},
+                              cmds=['# lib/axllib/test/%s/%s.as with the axllib library at %s: C executable vs `aldor -Ginterp %s.ao`' % (n, n, q, n)])
+    ck.cov['corpus_program_levels_compared'] = ncorp
+    ck.cov['corpus_no_verdict'] = ncorp_nov
     ck.cov.update({
         'rule': 'every case of the enumerated families x levels %s: interpreter from source, interpreter from saved .ao (levels %s), C executable; same tagged '
                 'stdout and same exit class; plus %d program endings x levels 0,1,2; distinct = distinct (level, route, family, output) on which the routes agreed' % (list(levels), list(aolevels), len(ENDINGS)),
